@@ -152,6 +152,90 @@ def gen_cases(rng, n):
     return [gen_case(rng, malformed=(i % 4 == 3)) for i in range(n)]
 
 
+def strip_case(rng: random.Random, ty):
+    """the size-1 boundary of a monitor group: EVERY monitor of a still-registered cell is deleted one by one, then
+    monitors are added to that cell again (same and new names), the layer steps, the cell is deleted and registered
+    again.  One case per call for trainer type `ty`."""
+    world = [[[[1, False], [1, rng.random() < 0.3]], 2]]
+    trainers = [copy.deepcopy(ty)]
+    if rng.random() < 0.3:
+        trainers.append(copy.deepcopy(rng.choice(TYPES)))
+    names = list(TYPE_NAMES[ty[0]])
+    cell = rng.choice([[0, 0, 0], [0, 1, 1], [0, 1, 0]])
+    ops = []
+    if rng.random() < 0.3:
+        ops.append(["tmode", 0, False])
+    ops.append(["reg", 0, 0, cell, rng.choice([0, 1])])
+    r = rng.random()
+    if r < 0.35:                                   # a second cell: disjoint, or (rarely) sharing a component
+        other = [0, 1 - cell[1], 1 - cell[2]] if rng.random() < 0.75 else [0, 1 - cell[1], cell[2]]
+        ops.append(["reg", 0, 1, other, 0])
+    if len(trainers) == 2 and rng.random() < 0.5:
+        ops.append(["reg", 1, 0, [0, 1 - cell[1], 1 - cell[2]], 0])
+    ops += [["lstep", 0]] * rng.randint(0, 2)
+    order = names[:]
+    rng.shuffle(order)
+    for k, mn in enumerate(order):
+        ops.append(["delmon", 0, 0, mn])
+        if rng.random() < 0.15:
+            ops.append(["lstep", 0])
+    if rng.random() < 0.2:
+        ops.append(["delmon", 0, 0, order[-1]])     # already gone: must be rejected
+    tail = rng.choice(["readd", "readd", "readd", "delcell", "rereg"])
+    if tail == "readd":
+        readd = []
+        for _ in range(rng.randint(1, 3)):
+            nm = rng.choice([rng.choice(names), 20, 21])
+            if nm >= 20 and rng.random() < 0.25:
+                sp = {"name": nm, "attr": [14], "unique": False, "tags": [], "prepend": False,
+                      "reads": [[rng.choice(names + [20])], False]}
+            else:
+                sp = {"name": nm, "attr": rng.choice(ATTRS[:9]), "unique": rng.random() < 0.3,
+                      "tags": rng.choice([[], [[8, 0]], [[8, 1]]]), "prepend": rng.random() < 0.6, "reads": None}
+            readd.append(["addmon", 0, 0, sp])
+        ops += readd
+        if rng.random() < 0.3:
+            ops += [["tmode", 0, False], ["lstep", 0], ["tmode", 0, True]]
+        ops += [["lstep", 0]] * rng.randint(1, 3)
+        if rng.random() < 0.5:
+            ops.append(["delmon", 0, 0, readd[-1][3]["name"]])
+            ops.append(["addmon", 0, 0, copy.deepcopy(readd[0][3])])
+            ops.append(["lstep", 0])
+        if rng.random() < 0.3:
+            ops.append(["clear", 0])
+            ops.append(["lstep", 0])
+    if tail == "rereg":
+        ops.append(["reg", 0, 0, cell, 0])           # still registered: must be rejected with ValueError
+    ops.append(["delcell", 0, 0])
+    ops.append(["reg", 0, 0, rng.choice([cell, [0, 0, 1]]), rng.choice([0, 1])])
+    ops += [["lstep", 0], ["lstep", 0]]
+    if rng.random() < 0.5:
+        ops.append(["tstep", 0])
+    return {"world": world, "trainers": trainers, "ops": ops}
+
+
+def strip_cases(rng, per_type):
+    return [strip_case(rng, ty) for _ in range(per_type) for ty in TYPES]
+
+
+def strip_exhaustive():
+    """single-monitor trainer (LinearHomeostasis): every sequence of depth <= 4 over an 8-operation alphabet around the
+    deletion of the cell's only monitor, closed by a layer call"""
+    world = [[[[1, False], [1, False]], 1]]
+    sp_new = {"name": 20, "attr": [2, 13], "unique": False, "tags": [], "prepend": True, "reads": None}
+    sp_same = {"name": 11, "attr": [2, 13], "unique": False, "tags": [[8, 1]], "prepend": True, "reads": None}
+    alpha = [["reg", 0, 0, [0, 0, 0], 0], ["delmon", 0, 0, 11], ["addmon", 0, 0, sp_new], ["addmon", 0, 0, sp_same],
+             ["lstep", 0], ["delcell", 0, 0], ["delmon", 0, 0, 20], ["tmode", 0, False]]
+    cases = []
+    for d in range(1, 5):
+        for seq in itertools.product(range(len(alpha)), repeat=d):
+            if alpha[seq[0]][0] != "reg":
+                continue
+            ops = [copy.deepcopy(alpha[i]) for i in seq] + [["lstep", 0]]
+            cases.append({"world": world, "trainers": [["Homeostasis"]], "ops": ops})
+    return cases
+
+
 def exhaustive_cases():
     """every sequence up to depth 3 over an 11-operation alphabet (both trainer pairings) and up to depth 4 over a
     7-operation alphabet (eligibility-trace trainer next to a plain one): one layer, two connections onto one
@@ -385,6 +469,12 @@ def oracle_case(case, ti):
             for g in gone:
                 if any(kk[2] == g[2] for kk in kept):
                     shared_deleted.add(g[2])
+        # --- operations on what is (not) registered are accepted (rejected): the trainer-level error contract
+        exp_ok = expected_ok(sp, op)
+        if exp_ok is True and raised:
+            fail("op_raised_on_registered_cell", j, {"what": "a valid operation on a registered cell raised", "message": msg})
+        elif exp_ok is False and not raised:
+            fail("op_accepted_on_unregistered", j, {"what": "an operation on something that is not registered did not raise"})
         sp.apply(op, raised)
         if op[0] == "reg" and not raised:
             binders.setdefault(tuple(op[3]), set()).add((op[1], op[2]))
@@ -470,6 +560,33 @@ def oracle_case(case, ti):
     return list(fails.values())
 
 
+CELL_ATTR_HEADS = {0, 1, 2, 3, 4, 5, 6, 7, 8, 9, 14}
+
+
+def expected_ok(sp, op):
+    """True: must succeed; False: must raise; None: not judged.  From the documented preconditions only."""
+    k = op[0]
+    if k not in ("reg", "delcell", "addmon", "delmon"):
+        return None
+    t = op[1]
+    if t >= len(sp.alive) or not sp.alive[t]:
+        return None
+    if k == "reg":
+        return op[2] not in sp.cells[t]
+    if k == "delcell":
+        return op[2] in sp.cells[t]
+    if k == "addmon":
+        if op[2] not in sp.cells[t]:
+            return False
+        attr = op[3]["attr"]
+        if (op[2], op[3]["name"]) in sp.entries[t] and not op[3]["unique"]:
+            return True                      # the existing monitor is returned, the attribute is not looked at
+        return (not attr) or attr[0] in CELL_ATTR_HEADS
+    if k == "delmon":
+        return (op[2], op[3]) in sp.entries[t]
+    return None
+
+
 def user_reads_unbound(case, j):
     """a user-added reading monitor whose names the same cell may not (any longer) have: user error, not judged"""
     for op in case["ops"][:j]:
@@ -496,9 +613,10 @@ def run(ctx):
     rng = random.Random(ctx["seed"])
     n = 300 if ctx["tier"] == "quick" else 3000
     cases = load_corpus() + witness_cases() + gen_cases(rng, n)
+    cases += strip_cases(rng, 4 if ctx["tier"] == "quick" else 30)
     exhaustive = False
     if ctx["tier"] == "thorough":
-        cases += exhaustive_cases()
+        cases += exhaustive_cases() + strip_exhaustive()
         exhaustive = True
     impl = run_impl_parallel(cases)
     model = F.eval_terms(ID, HEADER, [q_case(c) for c in cases], shard=max(20, len(cases) // 16 + 1))
@@ -529,10 +647,13 @@ def run(ctx):
         "rule": "seeded random lifecycle sequences (4-30 ops over register_cell / del_cell / add_monitor / del_monitor / "
                 "trainer.train|eval / layer.train|eval / layer call / trainer call / clear / drop+collect; 1-3 trainers of "
                 "11 shipped configurations; 1-2 Biclique layers with 1-2 connections x 1-2 neuron groups, so cells share "
-                "neurons and connections; every 4th case from a malformed stream); non-trivial = registers, steps and "
+                "neurons and connections; every 4th case from a malformed stream); plus a 'strip' stream for every one of "
+                "the 11 trainer configurations (all monitors of a registered cell deleted one by one, monitors re-added "
+                "under the same and new names, layer calls, del_cell, register again); non-trivial = registers, steps and "
                 ">=3 op kinds; distinct by full case text"
                 + ("; plus every sequence of depth<=3 over an 11-op alphabet for two trainer pairings and of depth 4 over a "
-                   "7-op alphabet for MSTDPET next to STDP" if exhaustive else ""),
+                   "7-op alphabet for MSTDPET next to STDP; every depth<=4 sequence over an 8-op alphabet around deleting a "
+                   "single-monitor (LinearHomeostasis) cell's only monitor" if exhaustive else ""),
         "op_distribution": dict(dist), "error_distribution": dict(errs),
         "trainer_type_distribution": dict(Counter(t[0] for c in cases for t in c["trainers"])),
         "oracle_failure_kinds": dict(kinds),
